@@ -1,4 +1,466 @@
 (* C15: limits and clean failure of the host-expression parser model.
-   Statements marked TODO are to be proved (no Admitted may remain). *)
+   Every lemma here is about EVERY byte string (no well-formedness assumption). *)
 From PV Require Import Base.DecimalFacts Hostlist.HLDefs Hostlist.HLSpec Hostlist.HLFacts Hostlist.HLParseFacts.
 Local Open Scope N_scope.
+
+(* ====================================================================== *)
+(* 0. constants                                                            *)
+(* ====================================================================== *)
+
+Lemma MAX_RANGE_small : MAX_RANGE < ULONG - 1. Proof. reflexivity. Qed.
+Lemma MAX_RANGE_pos : 0 < MAX_RANGE. Proof. reflexivity. Qed.
+Lemma MAX_RANGE_val : MAX_RANGE = 16384. Proof. reflexivity. Qed.
+Lemma MAX_HOST_SUFFIX_small : MAX_HOST_SUFFIX < ULONG - 1. Proof. reflexivity. Qed.
+
+(* ====================================================================== *)
+(* 1. strtoul never returns more than ULONG_MAX                            *)
+(* ====================================================================== *)
+
+Lemma strtoul_range s v rest o : strtoul s = Some (v, rest, o) -> v < ULONG.
+Proof.
+  unfold strtoul. cbv zeta.
+  match goal with |- context [match ?p with pair _ _ => _ end] => destruct p as [neg s2] end.
+  destruct (take_while is_digit s2) as [|d ds]; [discriminate|].
+  set (val := value (d :: ds)).
+  match goal with |- Some (?x, _, _) = _ -> _ => set (res := x) end.
+  intros H. assert (Hv : res = v) by congruence. subst v. subst res. clear H.
+  pose proof ULONG_pos as HU.
+  destruct (ULONG <=? val) eqn:E; destruct neg; cbn [negb andb].
+  - lia.
+  - lia.
+  - unfold wrap. apply N.mod_lt. lia.
+  - lia.
+Qed.
+
+(* ====================================================================== *)
+(* 2. _parse_single_range                                                  *)
+(* ====================================================================== *)
+
+(* the three final checks of _parse_single_range *)
+Definition psr_tail (lo_ hi_ : N) (w : nat) : outcome rng :=
+  if hi_ <? lo_ then Err EINVAL
+  else if MAX_RANGE <=? hi_ - lo_ then Err ERANGE
+  else if hi_ =? ULONG - 1 then Err EINVAL
+  else Ok (mkrng lo_ hi_ w).
+
+Definition range_ok (r : rng) : Prop :=
+  r_lo r <= r_hi r /\ r_hi r - r_lo r < MAX_RANGE /\ r_hi r < ULONG - 1.
+
+Lemma psr_tail_ok lo_ hi_ w r : hi_ < ULONG -> psr_tail lo_ hi_ w = Ok r -> range_ok r.
+Proof.
+  unfold psr_tail, range_ok. intros Hh H.
+  destruct (hi_ <? lo_) eqn:E1; [discriminate|].
+  destruct (MAX_RANGE <=? hi_ - lo_) eqn:E2; [discriminate|].
+  destruct (hi_ =? ULONG - 1) eqn:E3; [discriminate|].
+  injection H as <-. cbn [r_lo r_hi]. lia.
+Qed.
+
+Lemma psr_tail_no_fault lo_ hi_ w f : psr_tail lo_ hi_ w <> Fault f.
+Proof.
+  unfold psr_tail.
+  destruct (hi_ <? lo_); [discriminate|].
+  destruct (MAX_RANGE <=? hi_ - lo_); [discriminate|].
+  destruct (hi_ =? ULONG - 1); discriminate.
+Qed.
+
+(* whatever the text: refused as invalid, or two numbers strtoul produced go through the checks *)
+Lemma psr_shape s :
+  parse_single_range s = Err EINVAL \/
+  exists lo_ hi_ w, lo_ < ULONG /\ hi_ < ULONG /\ parse_single_range s = psr_tail lo_ hi_ w.
+Proof.
+  unfold parse_single_range. destruct (split_at 45 s) as [a pb].
+  destruct pb as [[|c p']|].
+  - (* "a-" *)
+    destruct (strtoul a) as [[[lo_ rest_lo] over_lo]|] eqn:Ea; [|left; reflexivity].
+    apply strtoul_range in Ea.
+    destruct rest_lo; [|left; reflexivity].
+    right. exists lo_, lo_, (length a). auto.
+  - rewrite match_N_45. destruct (c =? 45) eqn:Ec; [left; reflexivity|].
+    destruct (strtoul a) as [[[lo_ rest_lo] over_lo]|] eqn:Ea; [|left; reflexivity].
+    apply strtoul_range in Ea.
+    destruct (strtoul (c :: p')) as [[[h rest] over]|] eqn:Eb; [|left; reflexivity].
+    apply strtoul_range in Eb.
+    destruct rest; [|left; reflexivity].
+    right. exists lo_, h, (length a). auto.
+  - destruct (strtoul a) as [[[lo_ rest_lo] over_lo]|] eqn:Ea; [|left; reflexivity].
+    apply strtoul_range in Ea.
+    destruct rest_lo; [|left; reflexivity].
+    right. exists lo_, lo_, (length a). auto.
+Qed.
+
+Theorem parse_single_range_sound : forall s r, parse_single_range s = Ok r ->
+  r_lo r <= r_hi r /\ r_hi r - r_lo r < MAX_RANGE /\ r_hi r < ULONG - 1.
+Proof.
+  intros s r H. destruct (psr_shape s) as [E|(lo_ & hi_ & w & Hl & Hh & E)]; rewrite E in H.
+  - discriminate.
+  - exact (psr_tail_ok _ _ _ _ Hh H).
+Qed.
+
+Lemma parse_single_range_no_fault s f : parse_single_range s <> Fault f.
+Proof.
+  destruct (psr_shape s) as [E|(lo_ & hi_ & w & Hl & Hh & E)]; rewrite E.
+  - discriminate.
+  - apply psr_tail_no_fault.
+Qed.
+
+(* saturating conversion done by strtoul on a digit string *)
+Definition sat (v : N) : N := if ULONG <=? v then ULONG - 1 else v.
+
+Lemma digits_no_dash a : forallb is_digit a = true -> ~ In 45 a.
+Proof. intros H. eapply forallb_not_In; [exact H|reflexivity]. Qed.
+
+Lemma psr_digits a b :
+  a <> [] -> b <> [] -> forallb is_digit a = true -> forallb is_digit b = true ->
+  parse_single_range (a ++ 45 :: b) = psr_tail (sat (value a)) (sat (value b)) (length a).
+Proof.
+  intros Ha Hb Da Db. unfold parse_single_range.
+  rewrite split_at_app by (apply digits_no_dash; auto).
+  destruct b as [|d b']; [congruence|].
+  assert (Hd : is_digit d = true).
+  { cbn [forallb] in Db. apply andb_true_iff in Db; tauto. }
+  assert (E45 : (d =? 45) = false) by (unfold is_digit in Hd; lia).
+  cbv beta iota. rewrite match_N_45, E45.
+  rewrite (strtoul_digits a Ha Da), (strtoul_digits (d :: b') Hb Db).
+  cbv beta iota. reflexivity.
+Qed.
+
+Theorem parse_too_many : forall a b, a <> [] -> b <> [] ->
+  forallb is_digit a = true -> forallb is_digit b = true ->
+  value a <= value b -> MAX_RANGE <= value b - value a ->
+  (exists e, parse_single_range (a ++ 45 :: b) = Err e) /\
+  (value a + MAX_RANGE < ULONG -> parse_single_range (a ++ 45 :: b) = Err ERANGE).
+Proof.
+  intros a b Ha Hb Da Db Hle Hbig. rewrite psr_digits by auto.
+  pose proof MAX_RANGE_small as HM. pose proof MAX_RANGE_pos as HP. unfold psr_tail, sat.
+  destruct (ULONG <=? value a) eqn:Ea; destruct (ULONG <=? value b) eqn:Eb.
+  - split; [|intro; lia].
+    assert ((ULONG - 1 <? ULONG - 1) = false) as -> by lia.
+    assert ((MAX_RANGE <=? ULONG - 1 - (ULONG - 1)) = false) as -> by lia.
+    rewrite N.eqb_refl. eauto.
+  - lia.
+  - destruct (ULONG - 1 <? value a) eqn:E1; [lia|].
+    destruct (MAX_RANGE <=? ULONG - 1 - value a) eqn:E2.
+    + split; eauto.
+    + rewrite N.eqb_refl. split; [eauto|intro; lia].
+  - assert ((value b <? value a) = false) as -> by lia.
+    assert ((MAX_RANGE <=? value b - value a) = true) as -> by lia.
+    split; eauto.
+Qed.
+
+Theorem parse_reversed : forall a b, a <> [] -> b <> [] ->
+  forallb is_digit a = true -> forallb is_digit b = true ->
+  value b < value a -> parse_single_range (a ++ 45 :: b) = Err EINVAL.
+Proof.
+  intros a b Ha Hb Da Db Hlt. rewrite psr_digits by auto.
+  pose proof MAX_RANGE_small as HM. pose proof MAX_RANGE_pos as HP. unfold psr_tail, sat.
+  destruct (ULONG <=? value a) eqn:Ea; destruct (ULONG <=? value b) eqn:Eb.
+  - assert ((ULONG - 1 <? ULONG - 1) = false) as -> by lia.
+    assert ((MAX_RANGE <=? ULONG - 1 - (ULONG - 1)) = false) as -> by lia.
+    rewrite N.eqb_refl. reflexivity.
+  - destruct (value b <? ULONG - 1) eqn:E1; [reflexivity|].
+    assert (value b = ULONG - 1) as -> by lia.
+    assert ((MAX_RANGE <=? ULONG - 1 - (ULONG - 1)) = false) as -> by lia.
+    rewrite N.eqb_refl. reflexivity.
+  - lia.
+  - assert ((value b <? value a) = true) as -> by lia. reflexivity.
+Qed.
+
+Theorem parse_non_numeric : forall s,
+  (forall ds r, strtoul (fst (split_at 45 s)) <> Some (ds, r, false) /\
+                strtoul (fst (split_at 45 s)) <> Some (ds, r, true)) ->
+  parse_single_range s = Err EINVAL.
+Proof.
+  intros s H. unfold parse_single_range. destruct (split_at 45 s) as [a pb]. cbn [fst] in H.
+  assert (Ea : strtoul a = None).
+  { destruct (strtoul a) as [[[v r] o]|]; [|reflexivity]. exfalso.
+    destruct (H v r) as [H1 H2]. destruct o; [apply H2|apply H1]; reflexivity. }
+  destruct pb as [[|c p']|].
+  - rewrite Ea. reflexivity.
+  - rewrite match_N_45. destruct (c =? 45); [reflexivity|]. rewrite Ea. reflexivity.
+  - rewrite Ea. reflexivity.
+Qed.
+
+(* ====================================================================== *)
+(* 3. unbalanced brackets, error propagation, no out-of-contract state     *)
+(* ====================================================================== *)
+
+Theorem create_tok_unbalanced_open : forall h tok p after,
+  split_at 91 tok = (p, Some after) -> ~ In 93 after -> create_tok h tok = Err EINVAL.
+Proof.
+  intros h tok p after E1 Hn. unfold create_tok. rewrite E1.
+  rewrite (split_at_none 93 after Hn). reflexivity.
+Qed.
+
+Theorem create_tok_unbalanced_close : forall h tok,
+  ~ In 91 tok -> In 93 tok -> create_tok h tok = Err EINVAL.
+Proof.
+  intros h tok Hn Hi. unfold create_tok. rewrite (split_at_none 91 tok Hn).
+  apply mem_In in Hi. rewrite Hi. reflexivity.
+Qed.
+
+Theorem create_loop_error : forall fuel h s tok rest e,
+  next_tok s = Some (tok, rest) -> create_tok h tok = Err e -> create_loop (S fuel) h s = Err e.
+Proof.
+  intros fuel h s tok rest e Hn Hc. cbn [create_loop]. rewrite Hn, Hc. reflexivity.
+Qed.
+
+Lemma parse_ranges_no_fault pieces : forall room f, parse_ranges pieces room <> Fault f.
+Proof.
+  induction pieces as [|p ps IH]; intros room f; cbn [parse_ranges]; [discriminate|].
+  destruct room as [|room']; [discriminate|].
+  destruct (parse_single_range p) as [r|e|w] eqn:Ep; cbn [bind]; [|discriminate|].
+  - destruct (parse_ranges ps room') as [rs|e|w] eqn:Eps; cbn [bind]; try discriminate.
+    exfalso. exact (IH room' w Eps).
+  - exfalso. exact (parse_single_range_no_fault p w Ep).
+Qed.
+
+Lemma create_tok_no_fault h tok f : create_tok h tok <> Fault f.
+Proof.
+  unfold create_tok. destruct (split_at 91 tok) as [p [after|]].
+  - destruct (split_at 93 after) as [rl [q|]]; [|discriminate].
+    unfold parse_range_list.
+    destruct (parse_ranges (split_all 44 rl) (N.to_nat MAX_RANGES)) as [rs|e|w] eqn:E; cbn [bind].
+    + destruct q; discriminate.
+    + discriminate.
+    + exfalso. exact (parse_ranges_no_fault _ _ _ E).
+  - destruct (mem 93 tok); discriminate.
+Qed.
+
+Lemma create_loop_no_fault fuel : forall h s f, create_loop fuel h s <> Fault f.
+Proof.
+  induction fuel as [|fuel IH]; intros h s f; cbn [create_loop]; [discriminate|].
+  destruct (next_tok s) as [[tok rest]|]; [|discriminate].
+  destruct (create_tok h tok) as [h'|e|w] eqn:E; cbn [bind].
+  - apply IH.
+  - discriminate.
+  - exfalso. exact (create_tok_no_fault _ _ _ E).
+Qed.
+
+Theorem create_no_fault : forall s f, create s <> Fault f.
+Proof. intros s f. apply create_loop_no_fault. Qed.
+
+(* ====================================================================== *)
+(* 4. size bound                                                           *)
+(* ====================================================================== *)
+
+(* 4.1 lengths of the text pieces *)
+Lemma split_at_length c s a b : split_at c s = (a, Some b) -> length s = (length a + 1 + length b)%nat.
+Proof.
+  revert a b. induction s as [|x r IH]; intros a b H; cbn [split_at] in H; [discriminate|].
+  destruct (x =? c).
+  - inversion H; subst. cbn [length]. lia.
+  - destruct (split_at c r) as [a' b'] eqn:E. inversion H; subst.
+    cbn [length]. rewrite (IH a' b eq_refl). lia.
+Qed.
+
+Lemma split_all_length c s : (length (split_all c s) <= length s + 1)%nat.
+Proof.
+  induction s as [|x r IH]; cbn [split_all length]; [lia|].
+  destruct (x =? c); cbn [length]; [lia|].
+  destruct (split_all c r) as [|p ps]; cbn [length] in *; lia.
+Qed.
+
+Lemma drop_while_length p s : (length (drop_while p s) <= length s)%nat.
+Proof. induction s as [|x r IH]; cbn [drop_while length]; [lia|]. destruct (p x); cbn [length]; lia. Qed.
+
+Lemma drop_while_head p s x r : drop_while p s = x :: r -> p x = false.
+Proof.
+  induction s as [|y s IH]; cbn [drop_while]; [discriminate|].
+  destruct (p y) eqn:E; auto. intros H. injection H as -> _. exact E.
+Qed.
+
+Lemma scan_tok_length s : forall level t r, scan_tok level s = (t, r) -> (length t + length r = length s)%nat.
+Proof.
+  induction s as [|c s IH]; intros level t r H; cbn [scan_tok] in H.
+  - injection H as <- <-. reflexivity.
+  - destruct ((level =? 0)%Z && is_sep c).
+    + injection H as <- <-. reflexivity.
+    + match type of H with context [scan_tok ?l s] => destruct (scan_tok l s) as [t' r'] eqn:E end.
+      injection H as <- <-. apply IH in E. cbn [length]. lia.
+Qed.
+
+Lemma next_tok_spec s tok rest : next_tok s = Some (tok, rest) ->
+  tok <> [] /\ (length tok + length rest <= length s)%nat.
+Proof.
+  unfold next_tok. pose proof (drop_while_length is_sep s) as Hl.
+  destruct (drop_while is_sep s) as [|c s1] eqn:Ed; [discriminate|].
+  apply drop_while_head in Ed. cbn [scan_tok]. rewrite Ed, andb_false_r.
+  match goal with |- context [scan_tok ?l s1] => destruct (scan_tok l s1) as [t r] eqn:E end.
+  intros H. injection H as <- <-. apply scan_tok_length in E.
+  pose proof (drop_while_length is_sep r). cbn [length] in *. split; [discriminate|lia].
+Qed.
+
+(* 4.2 accepted ranges *)
+Lemma parse_ranges_ok pieces : forall room rs, parse_ranges pieces room = Ok rs ->
+  length rs = length pieces /\ Forall range_ok rs.
+Proof.
+  induction pieces as [|p ps IH]; intros room rs H; cbn [parse_ranges] in H.
+  - injection H as <-. split; [reflexivity|constructor].
+  - destruct room as [|room']; [discriminate|].
+    destruct (parse_single_range p) as [r|e|w] eqn:Ep; cbn [bind] in H; try discriminate.
+    destruct (parse_ranges ps room') as [rs'|e|w] eqn:Eps; cbn [bind] in H; try discriminate.
+    injection H as <-. destruct (IH _ _ Eps) as [Hlen Hok]. split.
+    + cbn [length]. congruence.
+    + constructor; auto. exact (parse_single_range_sound p r Ep).
+Qed.
+
+(* 4.3 the invariant of a list under construction *)
+Definition hl_inv (h : hl) : Prop :=
+  Forall hr_ok (ranges h) /\
+  N.of_nat (length (expand (ranges h))) = Z.to_N (nhosts h) /\ (0 <= nhosts h)%Z.
+
+Lemma hl_empty_inv : hl_inv hl_empty.
+Proof. split; [constructor|]. split; [reflexivity|]. cbn [hl_empty nhosts]. lia. Qed.
+
+Lemma range_hosts_length r : hr_ok r -> N.of_nat (length (range_hosts r)) = hr_count r.
+Proof.
+  intros H. rewrite (hr_count_ok r H). unfold range_hosts, hr_ok in *.
+  destruct (single r); [reflexivity|].
+  rewrite map_length, count_up_length. lia.
+Qed.
+
+Lemma hl_push_range_inv h r : hl_inv h -> hr_ok r -> hl_inv (hl_push_range h r).
+Proof.
+  intros (Hok & Hlen & Hpos) Hr. unfold hl_inv, hl_push_range. cbn [ranges nhosts].
+  split; [apply push_range_ok; auto|].
+  rewrite push_range_expand by auto. rewrite app_length.
+  pose proof (range_hosts_length r Hr). lia.
+Qed.
+
+(* folding a step that keeps the invariant and adds at most B hosts *)
+Lemma fold_inv {A} (step : hl -> A -> hl) (P : A -> Prop) (B : Z) :
+  (forall h x, hl_inv h -> P x -> hl_inv (step h x) /\ (nhosts (step h x) <= nhosts h + B)%Z) ->
+  forall xs h, hl_inv h -> Forall P xs ->
+  hl_inv (fold_left step xs h) /\ (nhosts (fold_left step xs h) <= nhosts h + B * Z.of_nat (length xs))%Z.
+Proof.
+  intros Hstep xs. induction xs as [|x xs IH]; intros h Hh HP; cbn [fold_left length].
+  - split; auto. lia.
+  - inversion HP as [|? ? Hx Hxs]; subst.
+    destruct (Hstep h x Hh Hx) as [Hi Hb].
+    destruct (IH (step h x) Hi Hxs) as [Hi' Hb']. split; auto.
+    rewrite Nat2Z.inj_succ, Z.mul_succ_r. lia.
+Qed.
+
+Definition ZMAX : Z := Z.of_N MAX_RANGE.
+Lemma ZMAX_val : ZMAX = 16384%Z. Proof. reflexivity. Qed.
+
+Lemma push_range_list_inv h p rs : hl_inv h -> Forall range_ok rs ->
+  hl_inv (push_range_list h p rs) /\
+  (nhosts (push_range_list h p rs) <= nhosts h + ZMAX * Z.of_nat (length rs))%Z.
+Proof.
+  intros Hh Hrs. unfold push_range_list.
+  apply (fold_inv (fun h r => hl_push_range h (mkhr p (r_lo r) (r_hi r) (r_w r) false)) range_ok ZMAX); auto.
+  intros h0 r Hh0 (H1 & H2 & H3).
+  assert (Hok : hr_ok (mkhr p (r_lo r) (r_hi r) (r_w r) false)).
+  { unfold hr_ok. cbn [single lo hi]. lia. }
+  split; [apply hl_push_range_inv; auto|].
+  unfold hl_push_range. cbn [nhosts]. rewrite (hr_count_ok _ Hok). cbn [single lo hi].
+  unfold ZMAX. lia.
+Qed.
+
+Lemma push_range_list_with_suffix_inv h p sfx rs : hl_inv h -> Forall range_ok rs ->
+  hl_inv (push_range_list_with_suffix h p sfx rs) /\
+  (nhosts (push_range_list_with_suffix h p sfx rs) <= nhosts h + ZMAX * Z.of_nat (length rs))%Z.
+Proof.
+  intros Hh Hrs. unfold push_range_list_with_suffix.
+  apply (fold_inv
+           (fun h r => fold_left (fun h n => hl_push_range h (mkhr (suffix_host p sfx (r_w r) n) 0 0 0 true))
+                                 (count_up (N.to_nat (r_hi r + 1 - r_lo r)) (r_lo r)) h)
+           range_ok ZMAX); auto.
+  intros h0 r Hh0 (H1 & H2 & H3).
+  destruct (fold_inv (fun h n => hl_push_range h (mkhr (suffix_host p sfx (r_w r) n) 0 0 0 true))
+                     (fun _ => True) 1%Z) with
+      (xs := count_up (N.to_nat (r_hi r + 1 - r_lo r)) (r_lo r)) (h := h0) as [Hi Hb]; auto.
+  - intros h1 n Hh1 _.
+    assert (Hok : hr_ok (mkhr (suffix_host p sfx (r_w r) n) 0 0 0 true)) by (split; reflexivity).
+    split; [apply hl_push_range_inv; auto|].
+    unfold hl_push_range. cbn [nhosts]. rewrite (hr_count_ok _ Hok). cbn [single]. lia.
+  - apply Forall_forall; auto.
+  - split; auto. rewrite count_up_length in Hb. unfold ZMAX. lia.
+Qed.
+
+(* 4.4 a plain word: exactly one more host *)
+Lemma hostname_with_suffix_num name k sfx :
+  hn_sfx (hostname_with_suffix name k) = Some sfx -> hn_num (hostname_with_suffix name k) <= MAX_HOST_SUFFIX.
+Proof.
+  unfold hostname_with_suffix.
+  destruct (skipn k name) as [|c s']; [discriminate|].
+  destruct (strtoul (c :: s')) as [[[num rest] o]|]; [|discriminate].
+  destruct rest; [|discriminate].
+  destruct (num <=? MAX_HOST_SUFFIX) eqn:E; [|discriminate].
+  intros _. cbn [hn_num]. lia.
+Qed.
+
+Lemma push_host_inv h name : hl_inv h ->
+  hl_inv (push_host h name) /\ (nhosts (push_host h name) = nhosts h + 1)%Z.
+Proof.
+  intros Hh. unfold push_host.
+  destruct (hn_sfx (hostname_create name)) as [sfx|] eqn:E.
+  - apply hostname_with_suffix_num in E. fold (hostname_create name) in E.
+    set (hn := hostname_create name) in *.
+    assert (Hok : hr_ok (mkhr (hn_pfx hn) (hn_num hn) (hn_num hn) (length sfx) false)).
+    { unfold hr_ok. cbn [single lo hi]. pose proof MAX_HOST_SUFFIX_small. lia. }
+    split; [apply hl_push_range_inv; auto|].
+    unfold hl_push_range. cbn [nhosts]. rewrite (hr_count_ok _ Hok). cbn [single lo hi]. lia.
+  - assert (Hok : hr_ok (mkhr name 0 0 0 true)) by (split; reflexivity).
+    split; [apply hl_push_range_inv; auto|].
+    unfold hl_push_range. cbn [nhosts]. rewrite (hr_count_ok _ Hok). cbn [single]. lia.
+Qed.
+
+(* 4.5 one word *)
+Lemma Ok_inj {A} (a b : A) : Ok a = Ok b -> a = b.
+Proof. intros H. injection H as H. exact H. Qed.
+
+Lemma create_tok_inv h tok h' : tok <> [] -> create_tok h tok = Ok h' -> hl_inv h ->
+  hl_inv h' /\ (nhosts h' <= nhosts h + ZMAX * Z.of_nat (length tok))%Z.
+Proof.
+  intros Hne H Hh. unfold create_tok in H.
+  destruct (split_at 91 tok) as [p [after|]] eqn:E1.
+  - destruct (split_at 93 after) as [rl [q|]] eqn:E2; [|discriminate].
+    apply split_at_length in E1, E2.
+    unfold parse_range_list in H.
+    destruct (parse_ranges (split_all 44 rl) (N.to_nat MAX_RANGES)) as [rs|e|w] eqn:E3;
+      cbn [bind] in H; try discriminate.
+    apply parse_ranges_ok in E3 as [Hlen Hrs].
+    pose proof (split_all_length 44 rl) as Hsl.
+    assert (Hb : (Z.of_nat (length rs) <= Z.of_nat (length tok))%Z) by lia.
+    assert (HZ : (0 <= ZMAX)%Z) by (unfold ZMAX; lia).
+    assert (Hm : (ZMAX * Z.of_nat (length rs) <= ZMAX * Z.of_nat (length tok))%Z)
+      by (apply Z.mul_le_mono_nonneg_l; auto).
+    destruct q as [|c q'].
+    + injection H as <-. destruct (push_range_list_inv h p rs Hh Hrs) as [Hi Hn]. split; auto. lia.
+    + injection H as <-.
+      destruct (push_range_list_with_suffix_inv h p (c :: q') rs Hh Hrs) as [Hi Hn]. split; auto. lia.
+  - destruct (mem 93 tok); [discriminate|]. apply Ok_inj in H. subst h'.
+    destruct (push_host_inv h (firstn (N.to_nat CUR_TOK_SIZE - 1) tok) Hh) as [Hi Hn]. split; auto.
+    destruct tok as [|c t]; [congruence|]. cbn [length]. rewrite ZMAX_val. lia.
+Qed.
+
+(* 4.6 the whole expression *)
+Lemma create_loop_inv fuel : forall h s h', create_loop fuel h s = Ok h' -> hl_inv h ->
+  hl_inv h' /\ (nhosts h' <= nhosts h + ZMAX * Z.of_nat (length s))%Z.
+Proof.
+  assert (HZ : (0 <= ZMAX)%Z) by (unfold ZMAX; lia).
+  induction fuel as [|fuel IH]; intros h s h' H Hh; cbn [create_loop] in H.
+  - injection H as <-. split; auto. nia.
+  - destruct (next_tok s) as [[tok rest]|] eqn:En.
+    2:{ injection H as <-. split; auto. nia. }
+    apply next_tok_spec in En as [Hne Hlen].
+    destruct (create_tok h tok) as [h1|e|w] eqn:Et; cbn [bind] in H; try discriminate.
+    destruct (create_tok_inv h tok h1 Hne Et Hh) as [Hi1 Hb1].
+    destruct (IH h1 rest h' H Hi1) as [Hi' Hb']. split; auto.
+    assert (Hm : (ZMAX * (Z.of_nat (length tok) + Z.of_nat (length rest)) <= ZMAX * Z.of_nat (length s))%Z)
+      by (apply Z.mul_le_mono_nonneg_l; lia).
+    lia.
+Qed.
+
+Theorem create_size_bound : forall s h, create s = Ok h ->
+  Forall hr_ok (ranges h) /\ (nhosts h <= Z.of_N (MAX_RANGE * N.of_nat (length s)))%Z /\
+  N.of_nat (length (expand (ranges h))) = Z.to_N (nhosts h).
+Proof.
+  intros s h H. unfold create in H.
+  destruct (create_loop_inv _ _ _ _ H hl_empty_inv) as [(Hok & Hlen & Hpos) Hb].
+  split; auto. split; auto.
+  cbn [hl_empty nhosts] in Hb. unfold ZMAX in Hb.
+  rewrite N2Z.inj_mul, nat_N_Z. lia.
+Qed.
